@@ -25,6 +25,9 @@ pub enum MapOp {
     InsertOverBomb { t: u8, v: u64 },
     /// `mem::forget` a guard of the slot (its borrow is never released), then insert over it
     LeakGuardThenInsert { t: u8, v: u64, excl: bool },
+    /// `mem::forget` a guard of the slot and go on: until the slot is replaced, conflicting
+    /// fetches / entry / setup / exec must panic and nothing may clear the borrow
+    LeakGuard { t: u8, excl: bool },
     InsertById { t: u8, kt: u8, kd: u8, v: u64 },
     Remove { t: u8 },
     RemoveById { t: u8, kt: u8, kd: u8 },
@@ -63,7 +66,10 @@ fn outcome<R>(f: impl FnOnce() -> R) -> Result<R, String> {
     catch_unwind(AssertUnwindSafe(f)).map_err(|p| panic_msg(&p))
 }
 
-fn check_world_vs_model(world: &mut World, model: &Model, step: usize) -> Result<(), Fail> {
+/// 1 = a forgotten shared guard (or several), 2 = a forgotten exclusive guard
+type Leaks = BTreeMap<(u8, u8), u8>;
+
+fn check_world_vs_model(world: &mut World, model: &Model, leaks: &Leaks, step: usize) -> Result<(), Fail> {
     for t in 0..NWT as u8 {
         for d in 0..NWD as u8 {
             let id = wrid(t, d);
@@ -74,6 +80,21 @@ fn check_world_vs_model(world: &mut World, model: &Model, step: usize) -> Result
                     step, t, d, present, model.contains_key(&(t, d))
                 )));
             }
+            // a slot with a forgotten guard cannot be looked at through get_mut(_raw) (the cell type
+            // asserts that nothing is borrowed): a shared leak is read through a shared fetch, an
+            // exclusive leak only has its presence compared
+            if present && leaks.contains_key(&(t, d)) {
+                if leaks[&(t, d)] == 1 {
+                    let real = with_wt!(t, T, world.try_fetch_by_id::<T>(wrid(t, d)).map(|g| (g.id(), g.pattern_ok())));
+                    if real != Some((model[&(t, d)], true)) {
+                        return Err(Fail::new(format!(
+                            "after step {}: slot (type {}, dynamic id {}) holds {:?}, the reference map holds {}",
+                            step, t, d, real, model[&(t, d)]
+                        )));
+                    }
+                }
+                continue;
+            }
             if present {
                 let got = world.get_mut_raw(id).map(|r| (*r).type_id());
                 if got != Some(wtype_id(t)) {
@@ -82,7 +103,8 @@ fn check_world_vs_model(world: &mut World, model: &Model, step: usize) -> Result
                         step, t, d
                     )));
                 }
-                // identity of the stored value (through an exclusive fetch: nothing may be borrowed)
+                // identity of the stored value (through an exclusive fetch: nothing may be borrowed;
+                // slots with a forgotten guard are read through get_mut, which ignores the flag)
                 let real = with_wt!(t, T, {
                     let g: Option<FetchMut<T>> = world.try_fetch_mut_by_id::<T>(wrid(t, d));
                     g.map(|g| (g.id(), g.pattern_ok()))
@@ -208,6 +230,11 @@ impl Prop for C09 {
                             v,
                             excl: src.chance(8, 16),
                         }
+                    } else if src.chance(6, 16) {
+                        MapOp::LeakGuard {
+                            t,
+                            excl: src.chance(6, 16),
+                        }
                     } else {
                         MapOp::Insert { t, v }
                     }
@@ -271,10 +298,86 @@ impl Prop for C09 {
         let mut model: Model = BTreeMap::new();
         let (mut mismatches, mut replaces, mut removes) = (0, 0, 0);
         let mut bombs = 0u64;
-        let mut leaks = 0u64;
+        let mut leaks_n = 0u64;
+        let mut leaks: Leaks = BTreeMap::new();
+        let mut leak_panics = 0u64;
         for (step, op) in ops.iter().enumerate() {
             let bad = |what: String| Fail::new(format!("step {} {:?}: {}", step, op, what));
+            // ---- slots with a forgotten guard ------------------------------------------------
+            {
+                // (slot, 1 = needs a shared borrow / 2 = needs an exclusive borrow / 3 = removes)
+                let touch: Option<((u8, u8), u8)> = match op {
+                    MapOp::TryFetch { t } | MapOp::Fetch { t } => Some(((*t, 0), 1)),
+                    MapOp::TryFetchMut { t } | MapOp::FetchMut { t } => Some(((*t, 0), 2)),
+                    MapOp::TryFetchById { t, kt, kd } if t == kt => Some(((*kt, *kd), 1)),
+                    MapOp::TryFetchMutById { t, kt, kd } if t == kt => Some(((*kt, *kd), 2)),
+                    MapOp::EntryOrInsert { t, .. } | MapOp::EntryOrInsertWith { t, .. } => Some(((*t, 0), 2)),
+                    MapOp::SetupRead { t } | MapOp::ExecWrite { t } => Some(((*t, 0), 2)),
+                    MapOp::Remove { t } | MapOp::GetMut { t } => Some(((*t, 0), 3)),
+                    MapOp::GetMutRaw { kt, kd } => Some(((*kt, *kd), 3)),
+                    MapOp::RemoveById { t, kt, kd } if t == kt => Some(((*kt, *kd), 3)),
+                    MapOp::LeakGuard { t, excl } => Some(((*t, 0), if *excl { 2 } else { 1 })),
+                    _ => None,
+                };
+                if let Some((slot, need)) = touch {
+                    if let (Some(l), true) = (leaks.get(&slot).cloned(), model.contains_key(&slot)) {
+                        if need == 3 {
+                            // removing (into_inner) or get_mut-ing a cell whose flag is set trips a debug
+                            // assertion of the cell type itself: not part of any property, the op is skipped
+                            continue;
+                        }
+                        let conflict = need == 2 || l == 2;
+                        if conflict {
+                            leak_panics += 1;
+                            let t = slot.0;
+                            let fresh = C09::fresh_value(&model, t, 77);
+                            let r: Result<(), String> = match op {
+                                MapOp::TryFetch { .. } => outcome(|| with_wt!(t, T, { world.try_fetch::<T>(); })),
+                                MapOp::Fetch { .. } => outcome(|| with_wt!(t, T, { world.fetch::<T>(); })),
+                                MapOp::TryFetchMut { .. } => outcome(|| with_wt!(t, T, { world.try_fetch_mut::<T>(); })),
+                                MapOp::FetchMut { .. } => outcome(|| with_wt!(t, T, { world.fetch_mut::<T>(); })),
+                                MapOp::TryFetchById { .. } => outcome(|| with_wt!(t, T, { world.try_fetch_by_id::<T>(wrid(slot.0, slot.1)); })),
+                                MapOp::TryFetchMutById { .. } => outcome(|| with_wt!(t, T, { world.try_fetch_mut_by_id::<T>(wrid(slot.0, slot.1)); })),
+                                MapOp::EntryOrInsert { .. } => outcome(|| with_wt!(t, T, { world.entry::<T>().or_insert(T::make(fresh)); })),
+                                MapOp::EntryOrInsertWith { .. } => outcome(|| with_wt!(t, T, { world.entry::<T>().or_insert_with(|| T::make(fresh)); })),
+                                MapOp::SetupRead { .. } => outcome(|| with_wt!(t, T, world.setup::<Read<T>>())),
+                                MapOp::ExecWrite { .. } => outcome(|| with_wt!(t, T, { world.exec(|d: Write<T>| d.id()); })),
+                                MapOp::LeakGuard { excl, .. } => outcome(|| with_wt!(t, T, {
+                                    if *excl {
+                                        std::mem::forget(world.fetch_mut::<T>());
+                                    } else {
+                                        std::mem::forget(world.fetch::<T>());
+                                    }
+                                })),
+                                _ => Err("skipped".into()),
+                            };
+                            if r.is_ok() {
+                                return Err(bad(format!(
+                                    "the call went through although a forgotten {} guard still holds a conflicting borrow of slot {:?} (only replacing or removing the slot may end that borrow)",
+                                    if l == 2 { "exclusive" } else { "shared" },
+                                    slot
+                                )));
+                            }
+                            check_world_vs_model(&mut world, &model, &leaks, step)?;
+                            tracker_consistent(&model, step, 0)?;
+                            continue;
+                        }
+                    }
+                }
+            }
             match op.clone() {
+                MapOp::LeakGuard { t, excl } => {
+                    if model.contains_key(&(t, 0)) {
+                        with_wt!(t, T, {
+                            if excl {
+                                std::mem::forget(world.fetch_mut::<T>());
+                            } else {
+                                std::mem::forget(world.fetch::<T>());
+                            }
+                        });
+                        leaks.insert((t, 0), if excl { 2 } else { 1 });
+                    }
+                }
                 MapOp::Insert { t, v } => {
                     let id = C09::fresh_value(&model, t, v);
                     let r = outcome(|| with_wt!(t, T, world.insert(T::make(id))));
@@ -285,8 +388,13 @@ impl Prop for C09 {
                 }
                 MapOp::LeakGuardThenInsert { t, v, excl } => {
                     let id = C09::fresh_value(&model, t, v);
-                    if model.contains_key(&(t, 0)) {
-                        leaks += 1;
+                    let blocked = match leaks.get(&(t, 0)) {
+                        Some(2) => true,
+                        Some(_) => excl,
+                        None => false,
+                    };
+                    if model.contains_key(&(t, 0)) && !blocked {
+                        leaks_n += 1;
                         with_wt!(t, T, {
                             if excl {
                                 std::mem::forget(world.fetch_mut::<T>());
@@ -520,7 +628,18 @@ impl Prop for C09 {
                     }
                 }
             }
-            check_world_vs_model(&mut world, &model, step)?;
+            // inserting over a slot replaces its cell: the forgotten guard's borrow is gone with it
+            match op {
+                MapOp::Insert { t, .. } | MapOp::InsertOverBomb { t, .. } | MapOp::LeakGuardThenInsert { t, .. } => {
+                    leaks.remove(&(*t, 0));
+                }
+                MapOp::InsertById { t, kt, kd, .. } if t == kt => {
+                    leaks.remove(&(*kt, *kd));
+                }
+                _ => {}
+            }
+            leaks.retain(|k, _| model.contains_key(k));
+            check_world_vs_model(&mut world, &model, &leaks, step)?;
             tracker_consistent(&model, step, 0)?;
         }
         drop(std::mem::ManuallyDrop::into_inner(world));
@@ -531,7 +650,8 @@ impl Prop for C09 {
             st.nontrivial(ops, || json!({"mismatching_calls": mismatches, "replaces": replaces, "removes": removes}));
         }
         st.class_n("replaced_value_with_panicking_destructor", bombs);
-        st.class_n("replaced_slot_with_forgotten_guard", leaks);
+        st.class_n("replaced_slot_with_forgotten_guard", leaks_n);
+        st.class_n("conflicting_ops_on_slot_with_forgotten_guard", leak_panics);
         st.class_n("mismatching_id_calls", mismatches);
         st.class_n("replaces", replaces);
         st.class_n("removes_of_present", removes);
